@@ -128,7 +128,24 @@ fn strip_numbers(s: &str) -> String {
     out
 }
 
+/// Runs the tool; a watchdog expiry is only believed after two more attempts with a four and twelve times longer
+/// limit (at least 60 s / 180 s): on a busy machine a slow run must never look like a hang.
 pub fn run(bin: &Path, spec: &RunSpec) -> RunOut {
+    let o = run_once(bin, spec);
+    if !o.timed_out {
+        return o;
+    }
+    let mut s2 = spec.clone();
+    s2.timeout = (spec.timeout * 4).max(Duration::from_secs(60));
+    let o2 = run_once(bin, &s2);
+    if !o2.timed_out {
+        return o2;
+    }
+    s2.timeout = (spec.timeout * 12).max(Duration::from_secs(180));
+    run_once(bin, &s2)
+}
+
+fn run_once(bin: &Path, spec: &RunSpec) -> RunOut {
     let t0 = Instant::now();
     let mut cmd = Command::new(bin);
     cmd.args(&spec.args);
